@@ -32,10 +32,12 @@ def make_grid(spec: dict):
     if k == "cyl":
         return CylindricalSymGrid(spec["radius"], spec["bounds_z"], spec["shape"],
                                   periodic_z=spec.get("periodic_z", False))
+    # (grids with a symmetry may have an inner hole: radius given as a pair)
+    radius = (spec["r_inner"], spec["radius"]) if spec.get("r_inner") else spec.get("radius")
     if k == "polar":
-        return PolarSymGrid(spec["radius"], spec["shape"])
+        return PolarSymGrid(radius, spec["shape"])
     if k == "sph":
-        return SphericalSymGrid(spec["radius"], spec["shape"])
+        return SphericalSymGrid(radius, spec["shape"])
     raise ValueError(k)
 
 
@@ -226,8 +228,13 @@ def render(frame: dict):
     if aff:
         data = float(aff[0]) + float(aff[1]) * data
     if frame.get("dtype"):
-        # reduced-precision fields (images, compact storages): the field keeps its dtype
+        # reduced-precision fields (images, compact storages, masks): the field keeps its dtype
         dt = np.dtype(frame["dtype"])
+        if dt.kind == "b":
+            data = data > 0.5
+        elif dt.kind in "iu":
+            info = np.iinfo(dt)
+            data = np.clip(np.round(data * 100.0), info.min, info.max)
         return ScalarField(grid, data.astype(dt), dtype=dt)
     return ScalarField(grid, data)
 
